@@ -1110,6 +1110,13 @@ impl<P: Xof<SEED_SIZE>, const SEED_SIZE: usize> Aggregator<SEED_SIZE, 16>
             }
         };
 
+        if public_share.bits() != self.bits || input_share.corr_inner.len() + 1 != self.bits {
+            return Err(VdafError::Uncategorized(format!(
+                "report was not generated for inputs of {} bits",
+                self.bits
+            )));
+        }
+
         if usize::from(agg_param.level) + 1 < self.bits {
             let mut corr_prng = self.init_prng::<_, _, Field64>(
                 input_share.corr_seed.as_ref(),
